@@ -26,11 +26,25 @@ SHORT = {
  'C19': ('`activateGroup` dereferences `accountGroupCtx` for contact groups without the nil guard', 'ActivateGroup of a known contact group while the account group is deactivated'),
  'C20': ('`readExportCBORNode` decodes through `NewBlockWithCid` / `DecodeBlock`: the identifier in the file name is trusted', 'an archive with a damaged entry'),
 }
+SHORT.update({
+ 'C01-2': ('`SealEnvelope` holds the message mutex only around the derive step (filed under C01: two honest envelopes share counter, key and nonce; the second never opens)', 'two concurrent sends of one device'),
+ 'C02-2': ('`registerChainKey` ignores an already registered device only for the own device: a re-delivered announcement rewinds the stored chain key', 'open, re-register, open at the window edge'),
+ 'C03-2': ('`openGroupEnvelope` skips the signature checker for any signature bytes seen before (package-level `sync.Map`)', 'a forged event reusing the signature of a genuine event that was opened first'),
+ 'C04-2': ('`handleGroupMemberDeviceAdded` tests the member key instead of the device key for duplicates', 'a member with two devices; listing depends on delivery order and changes on reopen'),
+ 'C05-2': ('`handleGroupDeviceChainKeyAdded` marks a member as served when ANY device of the own member sent the key', 'second device of a member joining after its sibling, two index passes'),
+ 'C06-2': ('`handleIncomingRequest` compares the announced key with `bytes.EqualFold` and records the announced contact unchanged', 'a requester announcing a fold-equivalent variant of its authenticated key'),
+ 'C07-2': ('`ContactRequestOutgoingSent` guard loses `ContactStateRemoved`', 'block, unblock, enqueue'),
+ 'C08-2': ('`getOrCreateDeviceCache` releases `muDeviceCaches` around the chain-key lookup', 'key registered between the lookup and the insertion of the new device cache'),
+ 'C09-2': ('(see seeded/C09-2/meta.json)', ''),
+ 'C10-2': ('chain key of a peer device persisted before the batch of precomputed message keys', 'a crash between the two writes of a registration'),
+ 'C11-2': ('contact-group key cached under the member-key namespace', 'a multi-member group whose identifier equals a contact account key'),
+ 'C12-2': ('`FilterGroupForReplication` returns its input unchanged when `SignPub` and a 32-byte `LinkKey` are set', 'an invitation that carries those optional public fields'),
+})
 rows = []
 for m in sorted(glob.glob(os.path.join(R, 'seeded', '*', 'meta.json'))):
     d = json.load(open(m))
     sid = os.path.basename(os.path.dirname(m))
-    sh = SHORT.get(sid[:3], ((d.get('summary') or '')[:160], d.get('needs_to_manifest') or ''))
+    sh = SHORT.get(sid, ((d.get('summary') or '').split('. ')[0][:200], (d.get('needs_to_manifest') or '')[:120]))
     det = {'yes': 'yes', 'after-strengthening': 'after strengthening', 'no': 'NO'}.get(d.get('check_detects'), d.get('check_detects'))
     rows.append('| `seeded/%s` | %s | %s | %s |' % (sid, sh[0], sh[1], det))
 table = ('| change | what it does | needs, to manifest | detected by `checks/cNN.py quick` |\n|---|---|---|---|\n' + '\n'.join(rows))
